@@ -331,6 +331,10 @@ def run(tier, v):
     if w.get("uploads_failed", 0) and not cov["wire_runs_rejected"]:
         raise vlib.Infra("an upload failed but no trace was rejected: " + str(w.get("last_failure")))
     cov["traces_validated_against_impl"] = s["runs"] + w["runs"] + m["replayed"]
+    # extension X01 (spec/BufSize.tla: the sender's adaptive buffer size and the receiver's acceptance bound for binary
+    # blocks): most of what it says goes beyond C04, but a receiver that refuses a block which is the escape coding of a
+    # chunk a sender can produce breaks the round trip C04 is about -- those keys are forwarded, the rest are notes
+    vlib.run_extension("x01", tier, cov, v=v, forward=lambda key: key.startswith(("gen-receiver-rejects-escaped-block", "gen-receiver-rejects-sender-block")))
     return cov
 
 
